@@ -256,3 +256,16 @@ Theorem C04_fresh_obligation_sound : forall ext fns gen n,
             (forall g, In g (f_globals f) -> smem g ext = true).
 Proof. exact fresh_obligation_sound. Qed.
 Print Assumptions C04_fresh_obligation_sound.
+
+(** * 6. TXT.PUBLIC.KEY — REFUTED clause (open finding C04-TXTPublicKey-bitsize-wraps-to-0)
+
+    "The decoded field table covers the register exactly once" fails for the 256-bit
+    TXT.PUBLIC.KEY: [BitSize()] and [Field.BitSize] are uint8 and [uint8(32*8) = 0], so the
+    one field that [TXTPublicKey.Fields()] returns has size 0, not 256 (its VALUE is the whole
+    key: the value clause and the freshness theorems above do hold for it). *)
+Theorem C04_key_field_covers_register_refuted :
+  exists tabs s key ob s',
+    length key = 32%nat /\ step tabs s (OpKeyFields key) = Some (ob, s') /\
+    ~ (exists n bytes a, ob = [(n, 0, 256, bytes, a)]).
+Proof. exact key_field_covers_register_refuted. Qed.
+Print Assumptions C04_key_field_covers_register_refuted.
